@@ -152,6 +152,10 @@ type Obs struct {
 	// their own entry and nobody else's
 	CapsConcSame bool   `json:"capsConcSame"`
 	CapsConcDiff string `json:"capsConcDiff"`
+	// a dry run with DisableHooks (--no-hooks), client-only and through a cluster connection, equals the plain one:
+	// Release.Hooks still lists every hook document
+	NoHooksSame bool   `json:"noHooksSame"`
+	NoHooksDiff string `json:"noHooksDiff"`
 	// schema family: requests the harness' loopback HTTP listener received while this case was validated
 	HTTPHits int `json:"httpHits"`
 	RouteDiff string `json:"routeDiff"`
